@@ -523,6 +523,7 @@ func aliasTwice(cols []string) bool {
 }
 
 type scanAllObs struct {
+	leak   string
 	line   string
 	viols  []string // C15 / C06 oracle failures
 	panicd string
@@ -590,6 +591,9 @@ func implScanAll(c *scanCase, dests []allDest, nrows int) (o scanAllObs) {
 		before = append(before, printDest(d.ptr.Elem()))
 	}
 	err = db.Query(context.Background(), stmt, c.inargs...).GetAll(args...)
+	if leak := releaseCheck(sqldb, f); leak != "" {
+		o.leak = leak
+	}
 	ran := false
 	for _, ev := range f.log() {
 		if ev.Kind == "query" || ev.Kind == "exec" {
@@ -672,7 +676,25 @@ func printDestPrefix(p string, n int) string {
 	return p
 }
 
+// releaseCheck: after Get / GetAll returned, every result set the call opened has been closed and no
+// connection of the pool is in use (C13).
+func releaseCheck(sqldb *sql.DB, f *fakeDB) string {
+	inuse := sqldb.Stats().InUse
+	for i := 0; i < 200 && inuse > 0; i++ {
+		time.Sleep(200 * time.Microsecond)
+		inuse = sqldb.Stats().InUse
+	}
+	f.mu.Lock()
+	opened, closed := f.rowsOpened, f.rowsClosed
+	f.mu.Unlock()
+	if opened != closed || inuse != 0 {
+		return fmt.Sprintf("result sets opened %d, closed %d, connections in use %d", opened, closed, inuse)
+	}
+	return ""
+}
+
 type scanObs struct {
+	leak     string
 	line     string
 	panicked string
 	before   string
@@ -728,6 +750,7 @@ func implScan(c *scanCase) (o scanObs) {
 		return scanObs{line: "HANG", panicked: "Get did not return within 20s"}
 	}
 	o.after = printDests(c.dests)
+	o.leak = releaseCheck(sqldb, f)
 	if err != nil && strings.HasPrefix(err.Error(), "PANIC ") {
 		return scanObs{line: "PANIC " + fmt.Sprintf("%q", err.Error()), panicked: err.Error()}
 	}
@@ -851,6 +874,9 @@ func cmdScan(args []string) int {
 			if o.panicd != "" {
 				addViol(violation{"C18", "getall-panic", qh, o.panicd})
 			}
+			if o.leak != "" {
+				addViol(violation{"C13", "not-released-after-getall", qh, o.leak + " after " + trunc(o.line, 60)})
+			}
 			for _, m := range o.viols {
 				addViol(violation{"C15", "getall-values", qh, m})
 				addViol(violation{"C06", "getall-values", qh, m})
@@ -884,6 +910,9 @@ func cmdScan(args []string) int {
 		qh := hx(c.query)
 		if o.panicked != "" {
 			addViol(violation{"C18", "scan-panic", qh, o.panicked})
+		}
+		if o.leak != "" {
+			addViol(violation{"C13", "not-released-after-get", qh, o.leak + " after " + trunc(o.line, 60)})
 		}
 		// C06: an error of the argument / column checks leaves every destination untouched
 		if o.class != "" && o.class != "conv" && o.before != o.after {
